@@ -30,6 +30,7 @@ pub fn profile_universe() -> Profile {
     p.enums = 35;
     p.prefix_names = 25;
     p.twin_names = 25;
+    p.cycles = 25;
     p
 }
 
